@@ -160,6 +160,17 @@ def gen(rng, nrng, tier):
             B = nrng.standard_normal(max(1, 7 - ln)) * 0.3
             yield ("arma2psd", {"A": A, "B": B, "rho": 1.5, "T": 2.0, "nfft": nfft})
             yield ("arma2psd", {"A": A, "B": None, "rho": 1.0, "T": 1.0, "nfft": nfft})
+    # coefficient vectors with exact zeros at the front, at the back and inside (a zero coefficient is a coefficient)
+    for i in range(12 if tier == "quick" else 120):
+        pa = int(nrng.integers(2, 6))
+        A = nrng.standard_normal(pa) * 0.4 + (1j * nrng.standard_normal(pa) * 0.4 if i % 2 else 0)
+        B = nrng.standard_normal(pa) * 0.4
+        tgt = [A, B][(i // 2) % 2]
+        pos = [0, pa - 1, pa // 2][(i // 4) % 3]
+        tgt[pos] = 0
+        if i % 6 == 5:
+            tgt[: pa - 1] = 0
+        yield ("arma2psd", {"A": A, "B": B if i % 3 else None, "rho": 1.0, "T": 1.0, "nfft": [16, 17, 33][i % 3]})
     # exactly real coefficients stored in complex arrays, odd and even NFFT
     for i in range(12 if tier == "quick" else 100):
         pa = int(nrng.integers(1, 6))
